@@ -1044,6 +1044,8 @@ struct Gen {
       const Val* n = sim.nodeOf(*refs[h]);
       op.setu("h", h).set("s", pickSel(*n, false).text()).set("v", toText(scalarOrSmall()));
       via(3);
+      if (r.chance(1, 6))
+        op.set("vk", 1);  // the key / index is handed over as a value of another document
     } else if (sel < 250) {
       op = mkop("add");
       size_t h = r.chance(3, 4) ? pickRef(0, K::Arr, true) : pickRef();
